@@ -601,6 +601,125 @@ fn check_delims(opts: gen::Opts, stride: u64, acc: &Acc) {
     }
 }
 
+/// Family L: line statements under every whitespace setting.  A line statement removes the blanks in
+/// front of its prefix and its own line end and nothing else, whatever the settings say about block
+/// tags: it must render like the block tag written with `+` on both sides (which switches trimming
+/// off for that tag) in the place where the line stood.  Lines around it - empty, blank-only, at the
+/// start or end of the file - are the alphabet.
+fn check_lines(acc: &Acc, tier: Tier) {
+    let fam: Vec<Delims> = delim_family().into_iter().filter(|d| d.line_stmt.is_some()).collect();
+    let cfgs = cfgs();
+    let bodies: [(&str, &str); 4] = [("if x", "endif"), ("for i in [1, 2]", "endfor"), ("set q = 1", ""), ("with w = 1", "endwith")];
+    let indents = ["", "  ", "\t"];
+    let nls = ["\n", "\r\n"];
+    let inners_q: Vec<&str> = vec!["a", " a ", "a\nb", "", "\na", "\n\na", "  \na", "a\n", "a\n\n", " \n \n"];
+    let inners_t: Vec<&str> = vec!["\n", "\t\na\n\t", "a \n b", "\n \n\n", "a\n  ", "\n\n\n"];
+    let inners: Vec<&str> = if tier == Tier::Thorough { inners_q.iter().chain(inners_t.iter()).cloned().collect() } else { inners_q };
+    let trailings = ["", "  "];
+    let befores = ["pre\n", "", "pre\n\n", "pre \n", "\n"];
+    let afters = ["post", "\npost", "", "\n", " \npost"];
+    // the end statement's own line end: present, or the file ends right after the statement
+    let end_nl = [true, false];
+    let mut cases: Vec<(usize, usize, usize, usize, usize, usize, usize, usize, usize)> = vec![];
+    for di in 0..fam.len() {
+        for bi in 0..bodies.len() {
+            for ii in 0..indents.len() {
+                for ni in 0..nls.len() {
+                    for xi in 0..inners.len() {
+                        for ti in 0..trailings.len() {
+                            for pi in 0..befores.len() {
+                                for ai in 0..afters.len() {
+                                    for ei in 0..end_nl.len() {
+                                        cases.push((di, bi, ii, ni, xi, ti, pi, ai, ei));
+                                    }
+                                }
+                            }
+                        }
+                    }
+                }
+            }
+        }
+    }
+    acc.count("line_settings_sources", cases.len() as u64);
+    acc.count("line_settings_sets", fam.len() as u64);
+    par_chunks(cases.len() as u64, 512, acc, |r, l| {
+        let envs: Vec<Vec<Environment<'static>>> = fam
+            .iter()
+            .map(|d| {
+                cfgs.iter()
+                    .map(|c| {
+                        let mut env = make_env(*c);
+                        if let Ok(sc) = syntax_of(d) {
+                            env.set_syntax(sc);
+                        }
+                        env
+                    })
+                    .collect()
+            })
+            .collect();
+        for n in r {
+            let (di, bi, ii, ni, xi, ti, pi, ai, ei) = cases[n as usize];
+            let d = &fam[di];
+            if syntax_of(d).is_err() {
+                continue;
+            }
+            let ls = d.line_stmt.unwrap();
+            let (body, end) = bodies[bi];
+            let nl = nls[ni];
+            let fix = |t: &str| t.replace('\n', nl);
+            let before = fix(befores[pi]);
+            let inner = fix(inners[xi]);
+            let after = fix(afters[ai]);
+            let indent = indents[ii];
+            let trailing = trailings[ti];
+            // texts that contain a delimiter of the set are not usable under it
+            let marks = [d.block.0, d.block.1, d.var.0, d.var.1, d.comment.0, d.comment.1, ls, d.line_comment.unwrap_or("\u{1}")];
+            if [&before, &inner, &after].iter().any(|t| marks.iter().any(|m| t.contains(m))) {
+                continue;
+            }
+            let mut line_src = format!("{before}{indent}{ls} {body}{trailing}{nl}{inner}");
+            let mut tag_src = format!("{before}{b0}+ {body} +{b1}{inner}", b0 = d.block.0, b1 = d.block.1);
+            if !end.is_empty() {
+                // the end statement starts a line: the inner text has to end one (or be empty right
+                // after the opening statement's line end)
+                if !(inner.is_empty() || inner.ends_with('\n')) {
+                    line_src.push_str(nl);
+                    tag_src.push_str(nl);
+                }
+                line_src.push_str(&format!("{indent}{ls} {end}{trailing}"));
+                tag_src.push_str(&format!("{b0}+ {end} +{b1}", b0 = d.block.0, b1 = d.block.1));
+                if end_nl[ei] {
+                    line_src.push_str(nl);
+                } else if !after.is_empty() {
+                    continue; // text after a statement without a line end would be part of the statement
+                }
+            } else if ei == 1 {
+                continue;
+            }
+            line_src.push_str(&after);
+            tag_src.push_str(&after);
+            for (ci, env) in envs[di].iter().enumerate() {
+                l.evals += 1;
+                let ra = catch(|| env.render_str(&line_src, context! { x => true }).map_err(|e| e.to_string()));
+                let rb = catch(|| env.render_str(&tag_src, context! { x => true }).map_err(|e| e.to_string()));
+                if ra != rb || !matches!(ra, Ok(Ok(_))) {
+                    acc.fail(Failure {
+                        key: format!("lines line_statement_equals_plus_tag set={} cfg#{}", d.name, ci),
+                        case: format!("{:?} vs {:?}", line_src, tag_src),
+                        detail: format!("settings {:?}: line form -> {:?}; tag form -> {:?}", cfgs[ci], ra, rb),
+                        replay: json!({"family": "line", "set": d.name, "cfg": ci, "line": line_src, "tag": tag_src}),
+                    });
+                } else {
+                    l.outcome("line statement equals the untrimmed tag in its place");
+                    if cfgs[ci].trim_blocks || cfgs[ci].lstrip_blocks {
+                        l.nontrivial.insert(fnv(line_src.as_bytes()) ^ ci as u64);
+                    }
+                }
+            }
+        }
+    });
+}
+
 pub fn main(args: Args) -> i32 {
     let start_t = std::time::Instant::now();
     install_quiet_panic_hook();
@@ -642,7 +761,10 @@ pub fn main(args: Args) -> i32 {
             Some("delims") | Some("line") => {
                 let fam = delim_family();
                 let d = fam.iter().find(|d| Some(d.name) == j["set"].as_str()).unwrap();
-                let mut env = Environment::new();
+                let mut env = match j["cfg"].as_u64() {
+                    Some(ci) if j["family"] == "line" => make_env(cfgs[ci as usize]),
+                    _ => Environment::new(),
+                };
                 env.set_syntax(syntax_of(d).unwrap());
                 if j["family"] == "delims" {
                     let ctxs = gen::contexts();
@@ -924,13 +1046,14 @@ pub fn main(args: Args) -> i32 {
         });
     }
     // delimiter metamorphosis over the program corpus
-    let opts2 = gen::Opts { depth: 2, max_programs: u64::MAX, multi_template: false, loop_controls: true };
+    let opts2 = gen::Opts { depth: 2, max_programs: u64::MAX, multi_template: false, loop_controls: true, extra_leaves: false };
     check_delims(opts2, 1, &acc);
     if args.tier == Tier::Thorough {
         // depth 3 is 4.3e7 programs x 3 contexts x 10 sets: a systematic subset (every 29th rank)
         let opts3 = gen::Opts { depth: 3, ..opts2 };
         check_delims(opts3, 29, &acc);
     }
+    check_lines(&acc, args.tier);
     let programs = vec![gen::Gen::new(opts2).program(98_765)];
     acc.sample(json!({"ws_source": build_source(&[" \n ", "a\n", "\n a"], &[tags[10].clone(), tags[29].clone()]), "settings": "all 8"}));
     acc.sample(json!({"delims_program_default": render_pieces(&programs[programs.len() / 2].pieces, None), "rewritten_erb": render_pieces(&programs[programs.len() / 2].pieces, Some(&delim_family()[0]))}));
